@@ -1,47 +1,45 @@
 // C43 — (appended to varpulis-lsp/src/navigation.rs)
-// Bounded exhaustive enumeration: every document of at most 2 characters over the alphabet {a _ space newline é 1}
-// (43 documents, includes a 2-byte character and newlines) x every position 0..=len+1.  The documents are CONCRETE, so CBMC
-// executes the real function on each of them; the only symbolic input is a selector that is fully case-split.
-pub const ALPHA: [&str; 6] = ["a", "_", " ", "\n", "\u{e9}", "1"];
-pub fn doc(k: u8) -> String {
-    // 0 -> "", 1..=6 -> one char, 7..=42 -> two chars
-    let mut s = String::new();
-    if k >= 1 && k <= 6 { s.push_str(ALPHA[(k - 1) as usize]); }
-    if k >= 7 && k <= 42 { let j = k - 7; s.push_str(ALPHA[(j / 6) as usize]); s.push_str(ALPHA[(j % 6) as usize]); }
-    s
-}
+// Kani cells: ALL valid UTF-8 documents of <= 3 bytes (symbolic bytes, checked by std::str::from_utf8 — this covers every 1-, 2- and
+// 3-byte character, newlines, CR) and EVERY usize offset.
 pub fn newlines(s: &str) -> usize { let mut k = 0; for c in s.bytes() { if c == b'\n' { k += 1; } } k }
+// Native enumeration cells (bounded stand-ins, DESIGN §2.3): every document of <= 4 characters over ALPHA (7381 documents; 1-, 2- and
+// 3-byte characters, newline, CR) x lines 0..=5 x character columns 0..=6, run natively against the real function.
+#[cfg(vpv_replay)]
+pub const ALPHA: [char; 9] = ['a', '_', ' ', '\n', '\u{e9}', '1', '.', '(', '\u{4e16}'];
+#[cfg(vpv_replay)]
+pub fn docs() -> Vec<String> {
+    let mut out = vec![String::new()];
+    let mut layer = vec![String::new()];
+    for _ in 0..4 {
+        let mut next = Vec::new();
+        for d in &layer { for c in ALPHA { let mut e = d.clone(); e.push(c); next.push(e); } }
+        out.extend(next.iter().cloned());
+        layer = next;
+    }
+    out.push("\r\n\u{e9}x".to_string());
+    out
+}
+#[cfg(vpv_replay)]
+pub fn enum_doc_line_col<F: Fn(&str, u32, u32) -> bool>(f: F) -> bool {
+    let mut ok = true; let mut shown = 0;
+    for d in docs() { for line in 0..=5u32 { for ch in 0..=6u32 {
+        let good = vpv_enum_try(|| format!("document={:?} line={} character={}", d, line, ch), || f(&d, line, ch));
+        if !good { ok = false; shown += 1; if shown >= 5 { return false; } }
+    } } }
+    ok
+}
 
-vpv_cell!(c43_byte_offset_to_position, "C43/navigation::byte_offset_to_position/no-panic, line <= #newlines, col <= #bytes (43 documents x every offset)", (), {
-    let mut k: u8 = 0; let mut ok = true;
-    while k <= 42 {
-        let d = doc(k);
-        let mut p: usize = 0;
-        while p <= d.len() + 1 {
-            let (line, col) = byte_offset_to_position(&d, p);
-            ok = ok && (line <= newlines(&d) && col <= d.len());
-            p += 1;
-        }
-        k += 1;
+vpv_cell!(#[kani::unwind(6)] c43_byte_offset_to_position, "C43/navigation::byte_offset_to_position/no-panic, line <= #newlines, col <= #bytes (all UTF-8 documents <= 3 bytes, every offset)", (b: [u8; 3], n: u8, p: usize), {
+    if n > 3 { return true; }
+    match std::str::from_utf8(&b[..n as usize]) {
+        Ok(d) => { let (line, col) = byte_offset_to_position(d, p); line <= newlines(d) && col <= d.len() }
+        Err(_) => true,
     }
-    ok
 });
-vpv_cell!(c43_word_at_position, "C43/navigation::word_at_position/no-panic; a returned word is non-empty and not longer than the document (43 documents x 3 lines x 4 columns)", (), {
-    let mut k: u8 = 0; let mut ok = true;
-    while k <= 42 {
-        let d = doc(k);
-        let mut line: u32 = 0;
-        while line <= 2 {
-            let mut ch: u32 = 0;
-            while ch <= 3 {
-                let w = word_at_position(&d, Position { line, character: ch });
-                ok = ok && (match &w { Some(s) => !s.is_empty() && s.len() <= d.len(), None => true });
-                ch += 1;
-            }
-            line += 1;
-        }
-        k += 1;
-    }
-    ok
+vpv_native!(c43_word_at_position, "C43/navigation::word_at_position/no-panic; a returned word is non-empty, made of identifier characters and occurs in the document (native enumeration: 7382 documents x 6 lines x 7 columns)", {
+    enum_doc_line_col(|d, line, ch| match word_at_position(d, Position { line, character: ch }) {
+        Some(w) => !w.is_empty() && d.contains(&w) && w.chars().all(|c| c.is_alphanumeric() || c == '_'),
+        None => true,
+    })
 });
 vpv_replay_table!(c43_byte_offset_to_position, c43_word_at_position);
